@@ -17,11 +17,11 @@ import (
 )
 
 const (
-	FmtText = 0
-	FmtCSV  = 1
-	FmtHTML = 2
-	FmtJSON = 3
-	FmtMD   = 4
+	FmtText  = 0
+	FmtCSV   = 1
+	FmtHTML  = 2
+	FmtJSON  = 3
+	FmtMD    = 4
 	NFormats = 5
 )
 
@@ -40,7 +40,7 @@ var viaNames = []string{"pkg", "fresh", "reused", "auto"}
 // RenderSpec selects one of the ways a caller can render the table.
 type RenderSpec struct {
 	Format   int
-	Deco     int  // text only: index into DecoChoices()
+	Deco     int // text only: index into DecoChoices()
 	Via      int
 	ToWriter bool // RenderTo(w) instead of Render()
 	Flags    int  // html: bit0 row-class generator, bit1 caption/id/class; text/auto: bit0 "texttable." prefix
@@ -211,6 +211,8 @@ func (w *World) Render(spec RenderSpec, sw io.Writer) (out string, err error, pi
 	if w.Log != nil {
 		w.Log.Add("render " + spec.String())
 	}
+	w.beginPass()
+	w.rendered = true
 	var t tabular.Table = w.Core
 	rr, ok := w.wrapperFor(spec)
 	if ok {
